@@ -22,6 +22,11 @@ from typing import List
 from abc import ABC, abstractmethod
 import numpy as np
 
+def _minus(x):
+    """ minus x, also when x is a numpy unsigned integer (whose own negation wraps around). """
+    return -int(x) if isinstance(x, np.unsignedinteger) else -x
+
+
 class Objective(ABC):
     @abstractmethod
     def value_to_minimize(self, sums:list, are_sums_in_ascending_order:bool=False)->float:
@@ -40,7 +45,7 @@ class Objective(ABC):
 
 class MaximizeTheSmallestSum(Objective):
     def value_to_minimize(self, sums:list, are_sums_in_ascending_order:bool=False)->float:
-        return -sums[0] if are_sums_in_ascending_order else -min(sums)
+        return _minus(sums[0]) if are_sums_in_ascending_order else _minus(min(sums))
     def __str__(self) -> str:
         return "maximize-smallest-sum"
     # def lower_bound(self, current_sums:list, value_to_add:float, bin_index:int, sum_of_remaining_items:float, are_sums_in_ascending_order:bool=False)->float:
@@ -88,7 +93,7 @@ class MaximizeKSmallestSums(Objective):
         self.num_smallest_parts = num_smallest_parts
     def value_to_minimize(self, sums: List[float], are_sums_in_ascending_order=False) -> float:
         sorted_sums = sums if are_sums_in_ascending_order else sorted(sums)
-        return -sum(sorted_sums[0: self.num_smallest_parts])
+        return _minus(sum(sorted_sums[0: self.num_smallest_parts]))
     def __str__(self) -> str:
         return f"maximize-{self.num_smallest_parts}-smallest-sums"
 
